@@ -10,6 +10,13 @@ Theorem C03_wrapper_decide_at_most_once : forall ls s, lrun linit ls = Some s ->
 Proof. exact decide_at_most_once. Qed.
 Print Assumptions C03_wrapper_decide_at_most_once.
 
+(* An instance is started at most once per duty; qbft.Run is entered at most as often as a start was granted, a
+   Decide needs a granted start. *)
+Theorem C03_wrapper_started_at_most_once : forall ls s, lrun linit ls = Some s ->
+  starts ls <= 1 /\ runs ls <= starts ls /\ decides ls <= starts ls.
+Proof. exact started_at_most_once. Qed.
+Print Assumptions C03_wrapper_started_at_most_once.
+
 Theorem C03_wrapper_monitor : forall ls s, lrun linit ls = Some s -> lmonitor ls = true.
 Proof. exact lrun_monitor. Qed.
 Print Assumptions C03_wrapper_monitor.
@@ -20,7 +27,14 @@ Theorem C03_wrapper_delete_on_decide_refuted :
 Proof. exact delete_on_decide_refuted. Qed.
 Print Assumptions C03_wrapper_delete_on_decide_refuted.
 
+(* A qbft.Run entered by a late Propose after the duty expired (seeded change C02-r6m2) is not a run of the
+   model and fails the monitor; without it the same history is a run. *)
+Theorem C03_wrapper_run_after_expiry_refuted : lrun linit late_trace = None /\ lmonitor late_trace = false /\
+  exists s, lrun linit [LStart Started; LRun; LDecide; LExpire; LHandle false; LStart Skipped] = Some s.
+Proof. exact run_after_expiry_refuted. Qed.
+Print Assumptions C03_wrapper_run_after_expiry_refuted.
+
 Theorem C03_wrapper_nonvacuous :
-  exists s, lrun linit [LHandle true; LStart Started; LHandle true; LDecide; LHandle true; LStart Joined; LExpire; LHandle false; LStart Skipped; LStart Joined] = Some s.
+  exists s, lrun linit [LHandle true; LStart Started; LRun; LHandle true; LDecide; LHandle true; LStart Joined; LExpire; LHandle false; LStart Skipped; LStart Joined] = Some s.
 Proof. exact life_nonvacuous. Qed.
 Print Assumptions C03_wrapper_nonvacuous.
